@@ -216,6 +216,12 @@ def find(
                     include,
                     os.path.dirname(e["file"]),
                 )
+                if not include_file:
+                    log.warning(
+                        f"{e['file']}: file '{include}' named by -include "
+                        + "not found",
+                    )
+
                 # A file marked with #pragma once is read only once per
                 # translation unit, also when it is named by -include.
                 if include_file and file_platform.process_include(
